@@ -6,6 +6,17 @@
 EXTENDS Session
 CONSTANTS IDS, RANGE, K, ATOMIC, FULL, STORAGE, SPARSE
 
+\* overridden in the configs that explore them (CONSTANT HOLD <- On): HOLD = a caller may hold the writer lock of the
+\* database (Session!BeginHold); SPLIT = the expected-fail variant of AddTracker (read and write in two transactions);
+\* TRACKERS2 = a second tracker may be added to a torrent that has one (sequential and concurrent AddTracker calls)
+HOLD == FALSE
+SPLIT == FALSE
+TRACKERS2 == FALSE
+\* NARROW = only add / remove / AddTracker / plain restart / the lock holder (no injected write failure, no started flag, no
+\* damaged records, no CleanDatabase, no counters): what the K = 3 configs of the writer-lock schedules can afford
+NARROW == FALSE
+On == TRUE
+
 P0 == [st |-> [meta |-> TRUE], tiers |-> <<>>, cnt |-> 0]
 
 \* a handle identity that nothing refers to any more (a caller may still hold the handle of a removed torrent);
@@ -13,27 +24,29 @@ P0 == [st |-> [meta |-> TRUE], tiers |-> <<>>, cnt |-> 0]
 UsedH  == {torrents[i].h : i \in DOMAIN torrents} \cup {o.h : o \in orphans} \cup {pc[c].h : c \in 1 .. K}
 FreshH == CHOOSE n \in 1 .. (2 * K + Cardinality(RANGE) + 2) : n \notin UsedH
 
-MCInit == InitWith([range |-> RANGE, k |-> K, atomic |-> ATOMIC, ret |-> FALSE, env |-> FALSE, sparse |-> SPARSE])
+MCInit == InitWith([range |-> RANGE, k |-> K, atomic |-> ATOMIC, ret |-> FALSE, env |-> FALSE, sparse |-> SPARSE, split |-> SPLIT])
 
 Step(c) ==
     \/ \E id \in IDS : BeginAdd(c, id, IF FULL THEN FreshH ELSE 0, [explicit |-> TRUE, fail |-> IF STORAGE THEN "any" ELSE "none", p |-> P0])
     \/ \E out \in ports \cup {0} : AddTakeViol(c, out) = "" /\ AddTakeUpd(c, out)
     \/ \E out \in {"dup", "storage", "pass"} : At(c, "Add", "check") /\ AddCheckViol(c, out) = "" /\ AddCheckUpd(c, out)
-    \/ \E ok \in (IF FULL THEN BOOLEAN ELSE {TRUE}) : AddWrite(c, ok)
-    \/ \E stopped \in (IF FULL THEN BOOLEAN ELSE {TRUE}) : AddInsert(c, stopped)
+    \/ \E ok \in (IF FULL /\ ~NARROW THEN BOOLEAN ELSE {TRUE}) : AddWrite(c, ok)
+    \/ \E stopped \in (IF FULL /\ ~NARROW THEN BOOLEAN ELSE {TRUE}) : AddInsert(c, stopped)
     \/ AddStarted(c)
     \/ \E id \in IDS : BeginRemove(c, id)
     \/ RemDetach(c) \/ RemRelease(c)
     \* (a failed record delete leaves a record without torrent - the environment's fault, not judged: only explored
     \*  where nothing depends on registry = database, i.e. never in these configs; the trace specification drives it)
     \/ RemDb(c, TRUE)
-    \/ FULL /\ \E id \in IDS, op \in {"Start", "Stop"} : BeginFlag(c, op, id)
+    \/ FULL /\ ~NARROW /\ \E id \in IDS, op \in {"Start", "Stop"} : BeginFlag(c, op, id)
     \/ \E found \in BOOLEAN : pc[c].step = "lookup" /\ LookupViol(c, found) = "" /\ LookupUpd(c, found)
     \/ FlagApply(c)
     \/ /\ FULL
-       /\ \E id \in IDS, valid \in BOOLEAN : (IF id \in DOMAIN db THEN Len(db[id].p.tiers) = 0 ELSE TRUE) /\ BeginTracker(c, id, "u", valid)
+       /\ \E id \in IDS, valid \in BOOLEAN : (IF id \in DOMAIN db THEN Len(db[id].p.tiers) <= (IF TRACKERS2 THEN 1 ELSE 0) ELSE TRUE) /\ BeginTracker(c, id, "u", valid)
     \/ At(c, "AddTracker", "apply") /\ TrackerUpd(c, TrackerOutcome(c))
     \/ TrackerLive(c)
+    \/ TrackerPut(c)
+    \/ HOLD /\ (BeginHold(c) \/ EndHold(c))
 
 \* restart equality is asserted on the spot: what is loaded is what the session held (C14.restart)
 MCReopen(corrupt) ==
@@ -48,10 +61,10 @@ MCCrashClose ==          \* as-is: Close with a registered torrent that has no r
 MCNext ==
     /\ crashed = ""
     /\ \/ \E c \in Callers : Step(c)
-       \/ \E corrupt \in {{}} \cup (IF FULL THEN {{i} : i \in DOMAIN db} ELSE {}) : MCReopen(corrupt)
+       \/ \E corrupt \in {{}} \cup (IF FULL /\ ~NARROW THEN {{i} : i \in DOMAIN db} ELSE {}) : MCReopen(corrupt)
        \/ MCCrashClose
-       \/ FULL /\ Quiescent /\ invalid # {} /\ CleanUpd(ATOMIC) /\ UNCHANGED pc
-       \/ FULL /\ Quiescent /\ \E id \in DOMAIN torrents, v \in {0, 1} : BumpUpd(id, v) /\ UNCHANGED pc
+       \/ FULL /\ ~NARROW /\ Quiescent /\ invalid # {} /\ CleanUpd(ATOMIC) /\ UNCHANGED pc
+       \/ FULL /\ ~NARROW /\ Quiescent /\ \E id \in DOMAIN torrents, v \in {0, 1} : BumpUpd(id, v) /\ UNCHANGED pc
 
 MCSpec == MCInit /\ [][MCNext]_vars
 
